@@ -886,15 +886,30 @@ func (c *Ctx) checkReaderErrors() {
 						continue
 					}
 					ev := core.ResolvedResults(ret)[errIdx]
-					switch x := ev.(type) {
-					case *ssa.Extract:
-						if oc, ok := x.Tuple.(*ssa.Call); ok && oc != call && oc.Pos() > call.Pos() {
-							fallback = true
+					var later func(v ssa.Value, d int) bool
+					later = func(v ssa.Value, d int) bool {
+						if d > 4 {
+							return false
 						}
-					case *ssa.Call:
-						if x != call && x.Pos() > call.Pos() {
-							fallback = true
+						switch x := v.(type) {
+						case *ssa.Extract:
+							oc, ok := x.Tuple.(*ssa.Call)
+							return ok && oc != call && oc.Pos() > call.Pos()
+						case *ssa.Call:
+							return x != call && x.Pos() > call.Pos()
+						case *ssa.Phi:
+							// the shared `err` variable after several later calls
+							for _, e := range x.Edges {
+								if !later(e, d+1) {
+									return false
+								}
+							}
+							return len(x.Edges) > 0
 						}
+						return false
+					}
+					if later(ev, 0) {
+						fallback = true
 					}
 				}
 				if !fallback {
